@@ -21,9 +21,10 @@ import (
 //
 //	mt <n> <G> <K> <pool> <m0> <m1> ... => <T> <ecount> <c0> <c1> ...
 //	     event limit n, G goroutines x K Trigger calls, hook i limited to m_i (0 = unlimited), c_i = calls of hook i
-//	pt <R> <J> <TG> <rounds> => <truesBad> <keep0> <keep1> <keepN> <early0> <earlyN> <racy0> <racy1> <racyN> <badarg>
+//	pt <R> <J> <TG> <rounds> <kind> => <truesBad> <keep0> <keep1> <keepN> <early0> <earlyN> <racy0> <racy1> <racyN> <badarg>
 //	     per round a fresh event, R registrar goroutines x J callbacks (some unsubscribed at once, some registering a
-//	     child), TG Trigger callers released together; truesBad = rounds in which not exactly one Trigger returned true
+//	     child), TG Trigger callers released together; truesBad = rounds in which not exactly one Trigger returned true;
+//	     kind 1 = promise.Event1[int], kind 0 = the parameterless promise.Event
 //	hc <G> <K> <rounds> => <calls> <distinct> <twice>
 //	     per round G goroutines call Hook K times each at the same time, then one Trigger
 //	lk <G> <K> <R> => L:<tgt>,<call>,<ret> ... T:<tgt>,<start>,<end>,<fired> ...
@@ -32,6 +33,16 @@ import (
 //	     per round M simultaneous LinkTo(A|B) callers, then Trigger(A), Trigger(B): the linked event fires once in total
 //	hw <G> <K> <H> => <T> <unordered> <f1,s2,uf,us,c> ...
 //	     G x K Trigger calls, H goroutines hooking (and partly unhooking) meanwhile; per hook the logical-clock window
+
+// spinUntil busy-waits for the barrier flag (so that all waiters leave it within nanoseconds of each other) but
+// yields every few hundred iterations: more spinning goroutines than cores must not starve the ones not yet started.
+func spinUntil(flag *atomic.Bool) {
+	for i := 0; !flag.Load(); i++ {
+		if i&255 == 255 {
+			runtime.Gosched()
+		}
+	}
+}
 
 func waitTimeout(wg *sync.WaitGroup) bool {
 	return guarded(wg.Wait)
@@ -81,6 +92,27 @@ func atoiAll(f []string) ([]int, bool) {
 	return out, true
 }
 
+func atouAll(f []string) ([]uint64, bool) {
+	out := make([]uint64, len(f))
+	for i, s := range f {
+		x, err := strconv.ParseUint(s, 10, 64)
+		if err != nil {
+			return nil, false
+		}
+		out[i] = x
+	}
+
+	return out, true
+}
+
+func minLimU(lim uint64, x int) int {
+	if lim != 0 && uint64(x) > lim {
+		return int(lim)
+	}
+
+	return x
+}
+
 func cutArrow(f []string) []string {
 	for i, s := range f {
 		if s == "=>" {
@@ -101,14 +133,14 @@ func minLim(lim, x int) int {
 
 func (w *world) execMT(f []string) (string, string) {
 	in := cutArrow(f)
-	p, ok := atoiAll(in)
-	if !ok || len(p) < 5 || p[1] < 1 || p[1] > 64 || p[2] < 1 || p[2] > 100000 || p[3] > 1 || len(p) > 40 {
+	pu, ok := atouAll(in)
+	if !ok || len(pu) < 5 || pu[1] < 1 || pu[1] > 64 || pu[2] < 1 || pu[2] > 100000 || pu[3] > 1 || len(pu) > 40 {
 		return "mt " + strings.Join(f, " "), "bad-op"
 	}
-	n, g, k, pooled, lims := p[0], p[1], p[2], p[3] == 1, p[4:]
+	n, g, k, pooled, lims := pu[0], int(pu[1]), int(pu[2]), pu[3] == 1, pu[4:]
 	var opts []event.Option
 	if n > 0 {
-		opts = append(opts, event.WithMaxTriggerCount(uint64(n)))
+		opts = append(opts, event.WithMaxTriggerCount(n))
 	}
 	e := event.New1[int](opts...)
 	var pool *workerpool.WorkerPool
@@ -120,7 +152,7 @@ func (w *world) execMT(f []string) (string, string) {
 		i := i
 		var ho []event.Option
 		if m > 0 {
-			ho = append(ho, event.WithMaxTriggerCount(uint64(m)))
+			ho = append(ho, event.WithMaxTriggerCount(m))
 		}
 		if pooled && i%2 == 1 {
 			ho = append(ho, event.WithWorkerPool(pool))
@@ -151,12 +183,12 @@ func (w *world) execMT(f []string) (string, string) {
 		pool.Shutdown()
 	}
 	t := g * k
-	passed := minLim(n, t)
+	passed := minLimU(n, t)
 	out := []string{strconv.Itoa(t), strconv.Itoa(e.TriggerCount())}
 	for i, m := range lims {
 		c := int(counts[i].Load())
 		out = append(out, strconv.Itoa(c))
-		if want := minLim(m, passed); c != want {
+		if want := minLimU(m, passed); c != want {
 			w.fail("max-trigger-count", fmt.Sprintf("event limit %d, %d concurrent triggers: hook %d with limit %d fired %d times, expected min = %d", n, t, i, m, c, want),
 				map[string]string{"oracle": "fired-min", "api": "event.WithMaxTriggerCount", "mode": "stress"})
 		}
@@ -173,10 +205,14 @@ func (w *world) execMT(f []string) (string, string) {
 func (w *world) execPT(f []string) (string, string) {
 	in := cutArrow(f)
 	p, ok := atoiAll(in)
-	if !ok || len(p) != 4 || p[0] < 1 || p[0] > 64 || p[1] < 1 || p[1] > 10000 || p[2] < 1 || p[2] > 64 || p[3] < 1 || p[3] > 100000 {
+	if !ok || len(p) != 5 || p[0] < 1 || p[0] > 64 || p[1] < 1 || p[1] > 10000 || p[2] < 1 || p[2] > 64 || p[3] < 1 || p[3] > 100000 || p[4] > 1 {
 		return "pt " + strings.Join(f, " "), "bad-op"
 	}
-	r, j, tg, rounds := p[0], p[1], p[2], p[3]
+	r, j, tg, rounds, zero := p[0], p[1], p[2], p[3], p[4] == 0
+	api := "promise.Event1"
+	if zero {
+		api = "promise.Event"
+	}
 	type cb struct {
 		n      atomic.Int64
 		bad    atomic.Int64
@@ -188,7 +224,10 @@ func (w *world) execPT(f []string) (string, string) {
 	}
 	var truesBad, keep0, keep1, keepN, early0, earlyN, racy0, racy1, racyN, badarg int
 	for round := 0; round < rounds; round++ {
-		e := promise.NewEvent1[int]()
+		var e prEvent = prEvent1{promise.NewEvent1[int]()}
+		if zero {
+			e = prEvent0{promise.NewEvent()} // parameterless twin: arguments are not observable (reported as 0)
+		}
 		cbs := make([]*cb, r*j)
 		var trigBegun atomic.Bool
 		var win atomic.Int64
@@ -198,12 +237,12 @@ func (w *world) execPT(f []string) (string, string) {
 		var pn panics
 		defer pn.report(w, "pt")
 		var start atomic.Bool
+		var ready atomic.Int32
 		for a := 0; a < r; a++ {
 			a := a
 			pn.goSafe(&wg, func() {
-				for !start.Load() {
-					runtime.Gosched()
-				}
+				ready.Add(1)
+				spinUntil(&start) // the registrants leave the barrier together
 				for b := 0; b < j; b++ {
 					c := &cb{nest: (a+b)%3 == 0, unsub: (a+2*b)%4 == 1}
 					cbs[a*j+b] = c
@@ -238,13 +277,20 @@ func (w *world) execPT(f []string) (string, string) {
 				trigBegun.Store(true)
 				if e.Trigger(100 + a) {
 					trues.Add(1)
-					win.Store(int64(100 + a))
+					if zero {
+						win.Store(0)
+					} else {
+						win.Store(int64(100 + a))
+					}
 				}
 			})
 		}
+		for spins := 0; int(ready.Load()) < r && spins < 1<<22; spins++ {
+			runtime.Gosched()
+		}
 		start.Store(true)
 		if !waitTimeout(&wg) {
-			w.fail("hang", "promise stress goroutines did not finish", map[string]string{"oracle": "hang", "api": "promise.Event1", "mode": "stress"})
+			w.fail("hang", "promise stress goroutines did not finish", map[string]string{"oracle": "hang", "api": api, "mode": "stress"})
 
 			break
 		}
@@ -290,13 +336,13 @@ func (w *world) execPT(f []string) (string, string) {
 		}
 	}
 	if truesBad != 0 || keep0 != 0 || keepN != 0 || earlyN != 0 || racyN != 0 || badarg != 0 {
-		w.fail("promise-once", fmt.Sprintf("promise stress R=%d J=%d TG=%d x %d rounds: rounds in which not exactly one Trigger returned true: %d; kept callbacks run 0/1/more times: %d/%d/%d; unsubscribed before Trigger and run: %d; unsubscribed concurrently and run twice: %d; wrong argument or child count: %d",
-			r, j, tg, rounds, truesBad, keep0, keep1, keepN, earlyN, racyN, badarg),
-			map[string]string{"oracle": "callback-count", "api": "promise.Event1", "mode": "stress"})
+		w.fail("promise-once", fmt.Sprintf("%s stress R=%d J=%d TG=%d x %d rounds: rounds in which not exactly one Trigger returned true: %d; kept callbacks run 0/1/more times: %d/%d/%d; unsubscribed before Trigger and run: %d; unsubscribed concurrently and run twice: %d; wrong argument or child count: %d",
+			api, r, j, tg, rounds, truesBad, keep0, keep1, keepN, earlyN, racyN, badarg),
+			map[string]string{"oracle": "callback-count", "api": api, "mode": "stress"})
 	}
 	w.res.nontrivial = true
 
-	return fmt.Sprintf("pt %d %d %d %d => %d %d %d %d %d %d %d %d %d %d", r, j, tg, rounds, truesBad, keep0, keep1, keepN, early0, earlyN, racy0, racy1, racyN, badarg), "accept"
+	return fmt.Sprintf("pt %d %d %d %d %d => %d %d %d %d %d %d %d %d %d %d", r, j, tg, rounds, p[4], truesBad, keep0, keep1, keepN, early0, earlyN, racy0, racy1, racyN, badarg), "accept"
 }
 
 func (w *world) execHW(f []string) (string, string) {
@@ -627,8 +673,7 @@ func (w *world) execLM(f []string) (string, string) {
 			i := i
 			pn.goSafe(&wg, func() {
 				ready.Add(1)
-				for !start.Load() {
-				}
+				spinUntil(&start)
 				if (i+round)%2 == 0 {
 					src.LinkTo(b)
 				} else {
@@ -667,17 +712,20 @@ func (w *world) execLM(f []string) (string, string) {
 func genStress(rng *hx.Rng, scale int) [][]string {
 	var cases [][]string
 	for i := 0; i < 12*scale; i++ {
-		n := hx.Pick(rng, []int{0, 0, 1, 3, 17, 200, 5000})
+		n := hx.Pick(rng, []string{"0", "0", "1", "3", "17", "200", "5000", hx.Pick(rng, hugeLimits)})
 		g := 2 + rng.Intn(7)
 		k := hx.Pick(rng, []int{1, 5, 50, 400})
 		lims := []string{"0"}
 		for j, nh := 0, 1+rng.Intn(5); j < nh; j++ {
-			lims = append(lims, strconv.Itoa(hx.Pick(rng, []int{0, 1, 1, 2, 5, 40, 1000})))
+			lims = append(lims, hx.Pick(rng, []string{"0", "1", "1", "2", "5", "40", "1000", hx.Pick(rng, hugeLimits)}))
 		}
-		cases = append(cases, []string{fmt.Sprintf("mt %d %d %d %d %s", n, g, k, rng.Intn(2), strings.Join(lims, " "))})
+		cases = append(cases, []string{fmt.Sprintf("mt %s %d %d %d %s", n, g, k, rng.Intn(2), strings.Join(lims, " "))})
 	}
 	for i := 0; i < 12*scale; i++ {
-		cases = append(cases, []string{fmt.Sprintf("pt %d %d %d %d", 2+rng.Intn(6), hx.Pick(rng, []int{1, 3, 10, 100}), 1+rng.Intn(4), hx.Pick(rng, []int{20, 100, 300}))})
+		cases = append(cases, []string{fmt.Sprintf("pt %d %d %d %d %d", 2+rng.Intn(6), hx.Pick(rng, []int{1, 3, 10, 100}), 1+rng.Intn(4), hx.Pick(rng, []int{20, 100, 300}), i%2)})
+	}
+	for i := 0; i < 6*scale; i++ { // 8 registrants leaving the barrier together, both twins
+		cases = append(cases, []string{fmt.Sprintf("pt 8 %d %d %d %d", hx.Pick(rng, []int{1, 2, 4}), 1+rng.Intn(2), hx.Pick(rng, []int{300, 600}), i%2)})
 	}
 	for i := 0; i < 6*scale; i++ {
 		cases = append(cases, []string{fmt.Sprintf("hc %d %d %d", 2+rng.Intn(7), hx.Pick(rng, []int{1, 2, 5, 30}), hx.Pick(rng, []int{50, 200, 500}))})
@@ -701,14 +749,14 @@ func genStress(rng *hx.Rng, scale int) [][]string {
 //
 //	mn <n> <ri> <depth> <m0> <m1> ...   ->  <TriggerCount> <fired0> <fired1> ...
 func (w *world) execMN(f []string) string {
-	p, ok := atoiAll(f)
-	if !ok || len(p) < 4 || len(p) > 15 || p[1] >= len(p)-3 || p[2] > 8 {
+	p, ok := atouAll(f)
+	if !ok || len(p) < 4 || len(p) > 15 || p[1] >= uint64(len(p)-3) || p[2] > 8 {
 		return "bad-op"
 	}
-	n, ri, depth, lims := p[0], p[1], p[2], p[3:]
+	n, ri, depth, lims := p[0], int(p[1]), int(p[2]), p[3:]
 	var opts []event.Option
 	if n > 0 {
-		opts = append(opts, event.WithMaxTriggerCount(uint64(n)))
+		opts = append(opts, event.WithMaxTriggerCount(n))
 	}
 	e := event.New1[int](opts...)
 	counts := make([]int, len(lims))
@@ -716,7 +764,7 @@ func (w *world) execMN(f []string) string {
 		i := i
 		var ho []event.Option
 		if m > 0 {
-			ho = append(ho, event.WithMaxTriggerCount(uint64(m)))
+			ho = append(ho, event.WithMaxTriggerCount(m))
 		}
 		e.Hook(func(arg int) {
 			counts[i]++
@@ -730,11 +778,11 @@ func (w *world) execMN(f []string) string {
 	out := []string{strconv.Itoa(e.TriggerCount())}
 	for i, m := range lims {
 		out = append(out, strconv.Itoa(counts[i]))
-		if m > 0 && counts[i] > m {
+		if m > 0 && uint64(counts[i]) > m {
 			w.fail("max-trigger-count", fmt.Sprintf("nested triggers: hook %d with limit %d fired %d times", i, m, counts[i]),
 				map[string]string{"oracle": "fired-min", "api": "event.WithMaxTriggerCount", "mode": "nested-trigger"})
 		}
-		if counts[i] > minLim(n, total) {
+		if counts[i] > minLimU(n, total) {
 			w.fail("max-trigger-count", fmt.Sprintf("nested triggers: hook %d fired %d times although the event (limit %d) was triggered at most %d times", i, counts[i], n, total),
 				map[string]string{"oracle": "fired-min", "api": "event.WithMaxTriggerCount", "mode": "nested-trigger"})
 		}
@@ -750,9 +798,9 @@ func genMN(rng *hx.Rng) []string {
 		nh := 1 + rng.Intn(4)
 		lims := make([]string, nh)
 		for j := range lims {
-			lims[j] = strconv.Itoa(hx.Pick(rng, []int{0, 0, 1, 2, 3}))
+			lims[j] = hx.Pick(rng, []string{"0", "0", "1", "2", "3", hx.Pick(rng, hugeLimits)})
 		}
-		ops = append(ops, fmt.Sprintf("mn %d %d %d %s", hx.Pick(rng, []int{0, 0, 1, 2, 4}), rng.Intn(nh), rng.Intn(6), strings.Join(lims, " ")))
+		ops = append(ops, fmt.Sprintf("mn %s %d %d %s", hx.Pick(rng, []string{"0", "0", "1", "2", "4", hx.Pick(rng, hugeLimits)}), rng.Intn(nh), rng.Intn(6), strings.Join(lims, " ")))
 	}
 
 	return ops
